@@ -32,6 +32,7 @@ from vlib import hexs
 LADDER = [0, 1, 2, 3, 7, 8, 9, 15, 16, 17, 31, 32, 33, 63, 64, 65, 127, 128, 129, 255, 256, 257, 1023, 1024, 1025, 4095, 4096, 4097,
           65533, 65534, 65535, 65536]
 POW2M = [6, 14, 30, 62, 126, 254, 1022, 4094, 65532]       # need = L + 1 or L + 2: the need itself hits 2^k
+BEYOND = [65537, 65538]                                     # a u16 wrap to a NON-zero value
 MODEL_SMALL, MODEL_MED = 300, 1100
 ALNUM = b"abcdefghijklmnopqrstuvwxyz0123456789"
 OPC = {b"<": 0, b"<=": 1, b">": 2, b">=": 3, b"!": 4, b"!=": 4, b"==": 5, b"=": 6, b"?": 7, b"?=": 7}
@@ -424,7 +425,7 @@ def run(ctx, C07):
 
     # ======== A: one atom of every kind, its length on the ladder
     A = Batch(ctx, C07, "sizes_atoms")
-    lset = sorted(set(LADDER + POW2M))
+    lset = sorted(set(LADDER + POW2M + BEYOND))
     docs = []
     for L in lset:
         for d in atom_docs(L):
@@ -596,6 +597,52 @@ def run(ctx, C07):
                 reach.add(int(p[2]))
     ctx.count("sizes_refills_distinct_counts_inside_one_call", len(reach))
     ctx.count("sizes_refills_max_inside_one_call", max(reach) if reach else 0)
+
+    # ======== W: resume offsets / carry-overs just beyond 2^16 (length x alignment): the first read ends 65536 + j bytes into
+    # ONE token whose first bytes would close it (escape pairs) or end it (a boundary behind 2^16 bytes) if the scan resumed
+    # at offset j instead of 65536 + j
+    Wb = Batch(ctx, C07, "sizes_wrap")
+    for j in range(0, 19):
+        body = b'\\"' * 9 + word(65536 + 22)
+        d = Wb.doc(Doc("quoted of %d bytes starting with 9 escape pairs" % len(body)).Q(body).raw(b" ").U(b"z").done())
+        n = len(d.data)
+        Wb.add(d, len(body) + 1, [1 + 65536 + j] + per(3, 64), None, tag="first read ends %d bytes into the string" % (65536 + j), need=len(body) + 1)
+        Wb.add(d, 1 << 17, [1 + 65536 + j, 1, 1] + per(2, 64), HOSTILE[j % 8], tag="first read ends %d bytes into the string" % (65536 + j), need=len(body) + 1)
+        wd = word(65536 + 40)
+        d = Wb.doc(Doc("unquoted of %d bytes" % len(wd)).U(b"k").op(b"=").U(wd).raw(b"\n").U(b"z").done())
+        Wb.add(d, len(wd) + 2, [2 + 65536 + j] + per(3, 64), HOSTILE[j % 8] if j % 2 else None, tag="first read ends %d bytes into the word" % (65536 + j), need=len(wd) + 2)
+        cm = b"#" + word(65536 + 40)
+        d = Wb.doc(Doc("comment of %d bytes" % len(cm)).U(b"k").raw(b" " + cm + b"\n").U(b"z").done())
+        if j % 3 == 0:
+            Wb.add(d, len(cm) + 1, [2 + 65536 + j] + per(3, 64), None, tag="first read ends %d bytes into the comment" % (65536 + j), need=len(cm) + 1)
+    Wb.run()
+
+    # ======== X: the carry-over (count x offset): the first read ends exactly c bytes into ONE token that starts at a
+    # non-zero buffer offset, so that fill_buf has to MOVE exactly c bytes (c on the ladder) -- once a token starts at offset 0
+    # the move is the identity and says nothing
+    Xb = Batch(ctx, C07, "sizes_carry")
+    for ci, c in enumerate(sorted(set(LADDER[1:] + [4094, 8191, 8192, 8193, 16384, 32767, 32768, 32769]))):
+        Lc = c + 24
+        for ki in range(4):
+            if c > 4097 and (ci + ki) % 2:
+                continue
+            if ki == 0:
+                d = Doc("carry %d of a quoted" % c).U(b"k").op(b"=").Q(word(Lc)).raw(b" ").U(b"z")
+                p0, nd = 3, Lc + 1
+            elif ki == 1:
+                d = Doc("carry %d of an unquoted" % c).O().raw(b" ").U(word(Lc)).raw(b" ").C()
+                p0, nd = 2, Lc + 2
+            elif ki == 2:
+                d = Doc("carry %d of a comment" % c).U(b"a").op(b"=").U(b"b").raw(b"#" + word(Lc) + b"\n").U(b"z")
+                p0, nd = 3, Lc + 2
+            else:
+                d = Doc("carry %d of an escaped quoted" % c).C().Q((b'\\"' + b"ab") * (Lc // 4)).U(b"z")
+                p0, nd = 2, 4 * (Lc // 4) + 1
+            d = Xb.doc(d.done())
+            n = len(d.data)
+            Xb.add(d, [nd, nd + 1, pow2_at_least(nd + 8), n + 9][(ci + ki) % 4], [p0 + c] + per([7, 1, 4096, 8][ki], n), HOSTILE[(ci + ki) % 8] if ki % 2 else None,
+                   tag="the first read ends %d bytes into the token" % c, need=nd)
+    Xb.run()
 
     # ======== I: number of tokens in one stream
     Ib = Batch(ctx, C07, "sizes_counts")
